@@ -40,10 +40,10 @@ def encArgs (as : List Arg) : String :=
 
 def Err.py : Err → String
   | .type => "E:TypeError" | .value => "E:ValueError" | .overflow => "E:OverflowError"
-  | .attr => "E:AttributeError" | .syntax => "E:SyntaxError"
+  | .attr => "E:AttributeError" | .syntax => "E:SyntaxError" | .index => "E:IndexError"
 def specErrPy : Spec.Err → String
   | .type => "E:TypeError" | .value => "E:ValueError" | .overflow => "E:OverflowError"
-  | .attr => "E:AttributeError" | .syntax => "E:SyntaxError"
+  | .attr => "E:AttributeError" | .syntax => "E:SyntaxError" | .index => "E:IndexError"
 
 def boolStr (b : Bool) : String := if b then "True" else "False"
 
@@ -128,6 +128,15 @@ def caseCmp (op : Nat) (a b : Str) : Case :=
 
 def caseMul (s : Str) (n : Int) : Case :=
   mk s!"o mul {encStr s} i{n}" (strMul (E s) n) (Spec.strMul s n) [s] [.int n]
+
+def caseGetItem (s : Str) (i : Int) : Case :=
+  mk s!"o getitem {encStr s} i{i}" (strGetItem (E s) i) (Spec.strGetItem s i) [s] [.int i]
+
+/-- `s[a:b]`: the slice object is written `S <a> <b> n` (None for an omitted bound) -/
+def caseGetSlice (s : Str) (a b : Arg) : Case :=
+  let enc (x : Arg) := match x with | .int v => s!"i{v}" | _ => "n"
+  mk s!"o getitem {encStr s} S {enc a} {enc b} n" (strGetSlice (E s) a b)
+    (Spec.strGetSlice s (toSpecArg a) (toSpecArg b)) [s] [a, b]
 
 def caseChr (a : Arg) : Case :=
   let kf := match a with | .int v => if Spec.kfSurrogate v then some "C14-K01" else none | _ => none
@@ -219,6 +228,9 @@ def alphabet : List Nat := [0x61, 0xE9, 0x20AC, 0x1F600, 39, 34, 92, 10, 0, 0x20
 /-- a smaller one for the products with many integer arguments -/
 def alphabetSmall : List Nat := [0x61, 0xE9, 0x1F600, 39, 0x20]
 
+/-- characters whose encodings share continuation bytes (see genMain) -/
+def syncAlphabet : List Nat := [0x61, 0xE9, 0x269, 0xA9, 0x3A9, 0x20AC, 0x82]
+
 def stringsUpTo (alpha : List Nat) : Nat → List Str
   | 0 => [[]]
   | n + 1 =>
@@ -266,6 +278,105 @@ def emit (c : Case) : IO Unit := IO.println c.line
 def sampleFloats : List Nat := [0x0000000000000000, 0x8000000000000000, 0x3FF0000000000000, 0x3FB999999999999A, 0x4340000000000000,
   0x7FEFFFFFFFFFFFFF, 0x0000000000000001, 0x400921FB54442D18, 0x4415AF1D78B58C40, 0x3EB0C6F7A0B5ED8D]
 
+/-! ### literals through the lexer: `lit <source text>` (goal 3 of the C14 extension round) -/
+
+def cp (s : String) : List Nat := s.toList.map Char.toNat
+
+/-- what the lexer model gives for the source line `<text>\n` (the harness compiles `x = <text>\n`).
+The `M:` forms mark a text the model places outside its scope although the specification
+(`Spec.evalSource`) has it in scope: they can never equal the implementation's answer. -/
+def litModelV (text : List Nat) : String :=
+  match readString (text ++ [10]) with
+  | .error => "E:SyntaxError"
+  | .ok (.str b) [10] => showBytes b
+  | .ok (.bytes b) [10] => encBytes b
+  | .ok _ _ => "M:rest"
+  | .notString => "M:notString"
+  | .multiline => "M:multiline"
+
+def litSpecV : Except Spec.Err Spec.LitVal → String
+  | .error e => specErrPy e
+  | .ok (.str cs) => encStr cs
+  | .ok (.bytes bs) => encBytes bs
+
+/-- one literal case; none when the text is outside the specification's scope (triple quotes,
+continuation, text after the closing quote, `\N{..}`) or when Python's value contains a lone surrogate
+(`'\ud800'` is valid Python; a Go string cannot hold it – the territory of C14-K01, not generated here) -/
+def caseLit (text : List Nat) : Option Case :=
+  match Spec.evalSource text with
+  | none => none
+  | some r =>
+    let surrogate := match r with
+      | .ok (.str cs) => cs.any fun c => 0xD800 ≤ c && c < 0xE000
+      | _ => false
+    if surrogate then none else
+    some { input := "lit " ++ esc text, modelV := litModelV text, specV := litSpecV r,
+           tags := if text.contains 92 then ["nt"] else [] }
+
+def emitLit (text : List Nat) : IO Unit :=
+  match caseLit text with
+  | some c => emit c
+  | none => pure ()
+
+/-- the 16-symbol alphabet of literal bodies: backslash, the escape letters x u U n, signs, octal and
+non-octal digits, hex letters of both cases, a non-hex letter, a quote, a non-ASCII character -/
+def litAlphabet : List Nat := [92, 120, 117, 85, 43, 45, 48, 49, 55, 56, 102, 70, 103, 39, 110, 0xE9]
+def litAlphabetSmall : List Nat := [92, 120, 117, 43, 48, 55, 56, 102, 39, 0xE9]
+
+/-- all strings of length exactly n -/
+def stringsOfLen (alpha : List Nat) (n : Nat) : List Str := (stringsUpTo alpha n).filter fun s => s.length = n
+
+def litExplicit : List String := [
+  "'\\x+1'", "'\\x-1'", "'\\x+'", "'\\x1'", "'\\x'", "'\\xg0'", "'\\x0g'", "'\\x 1'", "'\\x_1'", "'\\x1_'", "'\\x0x'", "'\\x0X41'",
+  "'\\xe9'", "'\\xE9'", "'\\x00'", "'\\xff'", "'\\x7f'", "'\\x80'", "'\\x411'",
+  "'\\u+123'", "'\\u-123'", "'\\u12+4'", "'\\u123'", "'\\u'", "'\\u0x41'", "'\\u1_23'", "'\\u00e9'", "'\\u20ac'", "'\\u20AC'", "'\\uFFFF'",
+  "'\\ufffd'", "'\\u0041'", "'\\u00411'", "'\\ud7ff'", "'\\ue000'", "'\\u 041'", "'\\u004 '",
+  "'\\U-0000001'", "'\\U+0000001'", "'\\U00110000'", "'\\U0010ffff'", "'\\U0010FFFF'", "'\\Uffffffff'", "'\\U7fffffff'", "'\\U80000000'",
+  "'\\UFFFFFFFF'", "'\\U0001f600'", "'\\U0000e000'", "'\\U0000d7ff'", "'\\U000000e9'", "'\\U0000004'", "'\\U'", "'\\U00000041'", "'\\U000000411'",
+  "'\\U0x000041'", "'\\U0000_041'", "'\\U00200000'", "'\\U01000000'", "'\\U10000000'", "'\\U0011ffff'",
+  "b'\\x+1'", "b'\\x-1'", "b'\\xff'", "b'\\xFF'", "b'\\x00'", "b'\\x80'", "b'\\x1'", "b'\\x'", "b'\\xg1'", "b'é'", "b\"é\"", "br'é'", "rb'é'", "Rb\"é\"",
+  "B'\\xe9'", "b'\\u00e9'", "b'\\U000000e9'", "b'\\u+123'", "b'\\U'", "b'\\u'", "b'\\N'", "b'\\N{DIGIT ONE}'", "b'\\400'", "b'\\377'", "b'\\777'", "b'\\0'",
+  "b'\\é'", "b'a\\xe9é'", "b'\\xé1'", "b'\\x1é'", "b'€'", "b'\\\\é'",
+  "'\\400'", "'\\377'", "'\\777'", "'\\1234'", "'\\8'", "'\\9'", "'\\08'", "'\\18'", "'\\0'", "'\\012'", "'\\101'", "'\\1011'", "'\\7a'", "'\\78'", "'\\778'",
+  "'a\\'", "'a\\\\'", "'\\\\'", "'\\''", "'\\\"'", "\"\\'\"", "\"\\\"\"", "'\\a\\b\\f\\n\\r\\t\\v'", "b'\\a\\b\\f\\n\\r\\t\\v'", "'\\z'", "'\\é'", "'\\€'", "'\\ '",
+  "'\\A'", "'\\B'", "'\\X41'", "b'\\X41'", "'\\c'", "'\\e'", "'\\-'", "'\\+'",
+  "r'\\x+1'", "r'\\''", "r'\\\\'", "r'\\'", "r'\\xg'", "r'é'", "r\"\\\"\"", "br'\\x+1'", "rb'\\xff'", "rb'\\''", "bR'\\n'", "Rb'\\n'", "BR'a'", "Br'a'", "rB'a'", "RB'a'", "R'\\n'",
+  "u'\\x41'", "U'\\u0041'", "u'é'", "u\"\\U0001f600\"",
+  "''", "b''", "\"\"", "r''", "br\"\"", "'é'", "\"é'\"", "'€'", "'\\xe9é'", "'a", "'a\"", "b'a", "\"a'", "'", "b'", "r\"", "'\\x41", "b'\\x41"]
+
+/-- `\x`, `\u`, `\U` with one position of the digit window replaced by a character next to the digit
+ranges (slash, colon, at, G, backquote, g), a sign, `_`, `x`, `.`, space or a non-ASCII character;
+and the truncated / over-long windows -/
+def litStructured : List (List Nat) :=
+  let bad : List Nat := [43, 45, 47, 58, 64, 71, 96, 103, 95, 120, 46, 32, 0xE9]
+  let kinds : List (Nat × Nat) := [(120, 2), (117, 4), (85, 8)]
+  let prefixes : List (List Nat) := [[], [98]]
+  kinds.flatMap fun (e, size) =>
+    [cp "0010ffe9", cp "0010FFE9", cp "00000041"].flatMap fun tpl8 =>
+      let tpl := tpl8.drop (8 - size)
+      prefixes.flatMap fun pre =>
+        ((List.range size).flatMap fun p =>
+          bad.map fun b => pre ++ [39, 92, e] ++ tpl.take p ++ [b] ++ tpl.drop (p + 1) ++ [39])
+        ++ ((List.range (size + 3)).map fun k => pre ++ [39, 92, e] ++ (tpl ++ [49, 49]).take k ++ [39])
+
+/-- alphabet of the seeded literal bodies (backslash and the escape letters several times) -/
+def litWide : Array Nat := #[92, 92, 92, 92, 120, 120, 117, 85, 110, 116, 97, 118, 43, 45, 95, 32, 39, 34, 103, 122,
+  48, 49, 50, 51, 52, 53, 54, 55, 56, 57, 97, 98, 99, 100, 101, 102, 65, 66, 67, 68, 69, 70, 0xE9, 0x20AC, 0x1F600]
+
+def randLit (r : Rng) : Rng × List Nat := Id.run do
+  let (r0, n) := r.nat 11
+  let (r1, k) := r0.nat 8
+  let mut r := r1
+  let mut body : List Nat := []
+  for _ in [0:n] do
+    let (r2, c) := r.pick litWide
+    r := r2
+    body := c :: body
+  let pre : List Nat := if k < 4 then [] else if k < 6 then [98] else if k = 6 then [114] else [98, 114]
+  let (r3, q) := r.nat 2
+  let quote := if q = 0 then 39 else 34
+  return (r3, pre ++ [quote] ++ body ++ [quote])
+
 def genMain (tier : String) (seed : Nat) : IO Unit := do
   let thorough := tier == "thorough"
   let big := allStrings alphabet (if thorough then 4 else 3)
@@ -301,6 +412,20 @@ def genMain (tier : String) (seed : Nat) : IO Unit := do
       emit (caseTail false s [sub] false .absent .absent); emit (caseTail true s [sub] false .absent .absent)
       emit (caseSplit s (some sub) .absent); emit (caseReplace s sub [0xE9] .absent)
       for w in [0, 1, 2] do emit (caseStrip w s (some sub))
+  -- self-synchronisation alphabet: characters that SHARE continuation bytes (U+00E9 = C3 A9, U+0269 = C9 A9,
+  -- U+00A9 = C2 A9, U+03A9 = CE A9, U+20AC = E2 82 AC, U+0082 = C2 82): a byte-level search that started
+  -- inside a character, or a suffix test on raw bytes of a wrong decoding, would give false matches here
+  let syncStrs := allStrings syncAlphabet (if thorough then 4 else 3)
+  for s in syncStrs do
+    for sub in allStrings syncAlphabet 1 ++ [[0xE9, 0x269], [0xA9, 0xA9]] do
+      emit (caseIn sub s); emit (caseFind s sub .absent .absent); emit (caseCount s sub .absent .absent)
+      emit (caseTail false s [sub] false .absent .absent); emit (caseTail true s [sub] false .absent .absent)
+      emit (caseSplit s (some sub) .absent); emit (caseReplace s sub [0x3A9] .absent)
+    if s.length ≤ 2 || thorough then
+      for a in [Arg.int (-2), .int 1, .none] do
+        for b in [Arg.int (-1), .int 2, .absent] do
+          emit (caseFind s [0xE9] a b); emit (caseCount s [0xA9] a b)
+          emit (caseTail false s [[0x269]] false a b); emit (caseTail true s [[0xE9], [0x3A9]] true a b)
   -- comparisons: all pairs of strings of length ≤ 2 (≤ 3 over the small alphabet)
   let cmpSet := allStrings alphabet 2 ++ [[0xFFFF], [0x10000], [0xFFFD], [0x7F], [0x80], [0x7FF], [0x800], [0xD7FF], [0xE000]]
   for a in cmpSet do
@@ -321,6 +446,16 @@ def genMain (tier : String) (seed : Nat) : IO Unit := do
   for s in allStrings alphabet 2 do
     for a in intArgs do
       emit (caseSplit s (some [0x20]) a); emit (caseSplit s none a); emit (caseReplace s [] [0x78] a)
+  -- 3b. indexing and slicing: every index -7..7 (and int64 extremes) on every string up to length 3 (4);
+  -- every pair of slice bounds over {None, -7..7, ±2^63, 2^63-1} on the small-alphabet strings
+  for s in big do
+    for i in ([-5, -4, -3, -2, -1, 0, 1, 2, 3, 4, 5, 2 ^ 62, -(2 ^ 63)] : List Int) do emit (caseGetItem s i)
+    for a in [Arg.none, .int (-2), .int 1] do
+      for b in [Arg.none, .int (-1), .int 2, .int 9] do emit (caseGetSlice s a b)
+  for s in small do
+    for a in intArgs do
+      for b in intArgs do
+        if a != .absent && b != .absent then emit (caseGetSlice s a b)
   -- 4. chr / ord
   for a in intArgs do emit (caseChr a)
   for v in [0, 0x7F, 0x80, 0x7FF, 0x800, 0xD7FF, 0xD800, 0xDBFF, 0xDFFF, 0xE000, 0xFFFD, 0xFFFF, 0x10000, 0x10FFFF, 0x110000] do
@@ -362,6 +497,30 @@ def genMain (tier : String) (seed : Nat) : IO Unit := do
     emit (caseReplace s sub s2 a); emit (caseStrip (k % 3) s (some s2)); emit (caseStrip (k % 3) s none)
     emit (caseJoin sub [s, s2, s]); emit (caseCmp k s (s.take k ++ s2)); emit (caseCmp k s2 sub)
     emit (caseMul s2 k)
+    emit (caseGetItem s ((k : Int) - 3)); emit (caseGetSlice s a' b)
     emit (caseRt (.bytes ((E s).take 8)))
+  -- 7. ---- BEGIN literal cases (`lit`): the lexer + DecodeEscape against Spec.evalSource ----
+  -- every body up to length 3 over the 16-symbol literal alphabet (4 in the thorough tier) x both quotes x
+  -- the prefixes '' b r br; length 4 (5) over the 10-symbol one x quote ' x prefixes '' b
+  let litFull := if thorough then 4 else 3
+  for k in List.range (litFull + 1) do
+    for body in stringsOfLen litAlphabet k do
+      for q in [39, 34] do
+        for pre in ([[], [98]] ++ (if k ≤ 3 then [[114], [98, 114]] else [])) do
+          emitLit (pre ++ [q] ++ body ++ [q])
+  for body in stringsOfLen litAlphabetSmall (litFull + 1) do
+    for pre in [[], [98]] do
+      emitLit (pre ++ [39] ++ body ++ [39])
+  for t in litExplicit do emitLit (cp t)
+  for t in litStructured do emitLit t
+  -- every \uXXXX over the digits {0 1 8 9 a f A F} (no surrogate is reachable without d/D)
+  let ud : List Nat := cp "0189afAF"
+  for a in ud do for b in ud do for c in ud do for d in ud do emitLit ([39, 92, 117, a, b, c, d, 39])
+  let mut rl : Rng := ⟨(seed + 0x14C14).toUInt64⟩
+  for _ in [0:(if thorough then 40000 else 4000)] do
+    let (r1, t) := randLit rl
+    rl := r1
+    emitLit t
+  -- ---- END literal cases ----
 
 end GPy.C14
